@@ -301,6 +301,62 @@ func bezierPart(c *vlib.Ctx) (int64, int64, any) {
 					}
 				}
 			}
+			// a handle of length zero is no handle, whatever its angle (Handle(theta, fwd, 0) is the usual spelling of a
+			// one-sided handle): the span next to it has one control point fewer
+			for _, th := range []float64{0, 40, 135, 250} {
+				for _, form := range []string{"Handle(theta,fwd,0)", "Handle(theta,0,rev)", "HandleRev(theta,0)", "HandleFwd(theta,0)", "last:Handle(theta,0,rev)"} {
+					p0, pm, p3 := v2.Vec{}, v2.Vec{X: 3, Y: 1}, v2.Vec{X: 6, Y: -0.5}
+					a := th * math.Pi / 180
+					dir := v2.Vec{X: math.Cos(a), Y: math.Sin(a)}
+					h0 := add(p0, v2.Vec{X: math.Cos(math.Pi / 3), Y: math.Sin(math.Pi / 3)})
+					h3 := add(p3, v2.Vec{X: math.Cos(2 * math.Pi / 3), Y: math.Sin(2 * math.Pi / 3)})
+					sdf.VerifSetRand(&src{})
+					b := sdf.NewBezier()
+					var span1, span2 []v2.Vec
+					switch form {
+					case "Handle(theta,fwd,0)":
+						b.AddV2(p0).HandleFwd(math.Pi/3, 1)
+						b.AddV2(pm).Handle(a, 1.5, 0)
+						b.AddV2(p3).HandleRev(2*math.Pi/3, 1)
+						span1, span2 = []v2.Vec{p0, h0, pm}, []v2.Vec{pm, add(pm, mul(dir, 1.5)), h3, p3}
+					case "Handle(theta,0,rev)":
+						b.AddV2(p0).HandleFwd(math.Pi/3, 1)
+						b.AddV2(pm).Handle(a, 0, 1.5)
+						b.AddV2(p3).HandleRev(2*math.Pi/3, 1)
+						span1, span2 = []v2.Vec{p0, h0, sub(pm, mul(dir, 1.5)), pm}, []v2.Vec{pm, h3, p3}
+					case "HandleRev(theta,0)":
+						b.AddV2(p0).HandleFwd(math.Pi/3, 1)
+						b.AddV2(pm).HandleRev(a, 0)
+						span1, span2 = []v2.Vec{p0, h0, pm}, []v2.Vec{p0, h0, pm}
+					case "HandleFwd(theta,0)":
+						b.AddV2(p0).HandleFwd(a, 0)
+						b.AddV2(pm).HandleRev(a+math.Pi/2, 1)
+						span1 = []v2.Vec{p0, add(pm, v2.Vec{X: math.Cos(a + math.Pi/2), Y: math.Sin(a + math.Pi/2)}), pm}
+						span2 = span1
+					case "last:Handle(theta,0,rev)":
+						b.AddV2(p0).HandleFwd(math.Pi/3, 1)
+						b.AddV2(pm).Handle(a, 0, 1.5)
+						span1 = []v2.Vec{p0, h0, sub(pm, mul(dir, 1.5)), pm}
+						span2 = span1
+					}
+					pg, err := b.Polygon()
+					jb.States++
+					jb.Transitions++
+					desc := map[string]any{"theta_deg": th, "form": form}
+					if err != nil {
+						report("Bezier.Handle|zero-length-handle|error", fmt.Sprintf("%s at %g deg: %v", form, th, err), desc)
+						continue
+					}
+					for i, q := range pg.Vertices() {
+						_, d1 := paramOf(span1, q, 0)
+						_, d2 := paramOf(span2, q, 0)
+						if math.Min(d1, d2) > 1e-9 {
+							report("Bezier.Handle|zero-length-handle|vertex-not-on-curve-defined-by-handles", fmt.Sprintf("%s at %g deg: vertex %d = %v is %g from the spans the non-zero handles define", form, th, i, q, math.Min(d1, d2)), desc)
+							break
+						}
+					}
+				}
+			}
 			// handle specifications: end points with forward / reverse handles => cubic control points
 			for _, t1 := range thetas {
 				for _, r1 := range rs {
